@@ -270,7 +270,7 @@ def build_case(rnd, tier, for_c15=False):
     for pi in range(nprints):
         steps.append(["event", EV_START])
         feats = mk(rel=rnd.random() < 0.3, inch=rnd.random() < 0.2, at=True, fw=rnd.random() < 0.2, p_inside=0.5, extgen=marks,
-                   p_ext=0.05, ext=False, zmoves=True, retmove=rnd.random() < 0.5, beds=False, hv=rnd.random() < 0.1,
+                   p_ext=0.05, ext=False, zmoves=True, retmove=rnd.random() < 0.5, beds=False, hv=rnd.random() < 0.1, hv_bed_sized=True,
                    arcs=rnd.random() < 0.4, arcs_rel=True, p_arc=0.12)
         if feats["fw"]:
             feats["fwparam"] = ""
@@ -412,7 +412,10 @@ class C15(Monitor):
                 if hs["excluding"]:
                     v.append(viol(tr, r, "still-excluding-after-cleanup", "excluding stays set"))
                 A, B = r["A_after"], r["B_after"]
-                if pos_diff(A["pos"], B["pos"]) > TOL or A["abs_xyz"] != B["abs_xyz"] or A["unit"] != B["unit"]:
+                # relative moves to astronomic coordinates and back leave a rounding residue of the order of an ulp of the largest
+                # coordinate visited (1.2e-4 mm at 1e12 mm), differently in every implementation: not a position error
+                big = max([1.0] + [abs(c) for q in tr.steps for c in q["B_after"]["pos"]])
+                if pos_diff(A["pos"], B["pos"]) > max(TOL, 2e-15 * big) or A["abs_xyz"] != B["abs_xyz"] or A["unit"] != B["unit"]:
                     v.append(viol(tr, r, "cleanup-does-not-resynchronise", "printer %r abs=%s unit=%s, file %r abs=%s unit=%s"
                                   % (A["pos"], A["abs_xyz"], A["unit"], B["pos"], B["abs_xyz"], B["unit"])))
                 if abs(A["e"] - B["e"]) > 1e-9 * (1.0 + abs(A["e"]) + abs(B["e"])):
